@@ -291,4 +291,4 @@ def st_case(ctx: Ctx):
     })
 
 
-PARTS = [Part("trees", check_tree, strategy=st_case, quick=1000, thorough=48000)]
+PARTS = [Part("trees", check_tree, strategy=st_case, quick=2400, thorough=64000)]
